@@ -197,14 +197,21 @@ def evaluate(mu, d):
 			if " failed" in r.stdout or "error" in r.stdout.lower():
 				return {"id": mu["id"], "status": "killed-by-tests", "tests": r.stdout.strip()[-80:]}
 		env = dict(os.environ, VERIF_REPO = d)
-		r = subprocess.run(["./check", mu["property"], "--tier", "quick"], cwd = VERIF, env = env, stdout = subprocess.PIPE,
-			stderr = subprocess.STDOUT, text = True, timeout = 1500)
-		what = [l.strip() for l in r.stdout.split("\n") if l.strip().startswith("what:")][:1]
-		last = r.stdout.strip().split("\n")[-1][-120:]
-		st = {0: "survived", 1: "killed", 2: "inconclusive"}.get(r.returncode, "rc%d" % r.returncode)
-		if r.returncode == 2 and ("build of" in r.stdout or "BuildFailed" in r.stdout):
-			st = "invalid"
-		return {"id": mu["id"], "status": st, "what": what[0][:200] if what else "", "last": last}
+		worst = None
+		for chk in mu.get("checks") or [mu["property"]]:
+			r = subprocess.run(["./check", chk, "--tier", "quick"], cwd = VERIF, env = env, stdout = subprocess.PIPE,
+				stderr = subprocess.STDOUT, text = True, timeout = 1500)
+			what = [l.strip() for l in r.stdout.split("\n") if l.strip().startswith("what:")][:1]
+			last = r.stdout.strip().split("\n")[-1][-120:]
+			st = {0: "survived", 1: "killed", 2: "inconclusive"}.get(r.returncode, "rc%d" % r.returncode)
+			if r.returncode == 2 and ("build of" in r.stdout or "BuildFailed" in r.stdout):
+				st = "invalid"
+			res = {"id": mu["id"], "status": st, "what": what[0][:200] if what else "", "last": last, "by": chk}
+			if st in ("killed", "invalid"):
+				return res
+			if worst is None or st == "inconclusive":
+				worst = res
+		return worst
 	except subprocess.TimeoutExpired:
 		return {"id": mu["id"], "status": "timeout"}
 	finally:
@@ -227,7 +234,7 @@ def run(path, nworkers, only = None):
 	mus = [json.loads(l) for l in open(path)]
 	if only:
 		mus = [m for m in mus if m["property"] in only]
-	outpath = os.path.join(VERIF, "mut", "results.jsonl")
+	outpath = os.path.join(VERIF, "mut", "results.files.jsonl" if "files" in path else "results.jsonl")
 	done = set()
 	if os.path.exists(outpath):
 		done = {json.loads(l)["id"] for l in open(outpath)}
@@ -318,3 +325,40 @@ def cross():
 
 if __name__ == "__main__" and sys.argv[1] == "cross":
 	cross()
+
+
+def gen_files():
+	""" second sweep: every line of the anchored source files that the mechanism ranges did not cover; each mutant is
+	    tried against all checks anchoring the file (cheapest first) until one reports a violation """
+	props = [json.loads(l) for l in open(os.path.join(VERIF, "properties.jsonl"))]
+	by_file = {}
+	for p in props:
+		for f in p["anchors"]["files"]:
+			by_file.setdefault(f, []).append(p["id"])
+	done = set()
+	for l in open(os.path.join(VERIF, "mut", "mutants.jsonl")):
+		m = json.loads(l)
+		done.add((m["file"], m["line"]))
+	skip = ("sched_mframe.c", "gsm48_rr.c", "osmocon.c", "sched_trx.c", "sysinfo.c", ".h")
+	cost = {"C01": 4, "C02": 3, "C03": 22, "C04": 6, "C05": 6, "C06": 30, "C07": 5, "C08": 18, "C09": 14, "C10": 8, "C11": 4,
+		"C12": 18, "C13": 2, "C14": 10, "C15": 60, "C16": 9, "C17": 5, "C18": 12, "C19": 13, "C20": 5}
+	for path in sorted(by_file):
+		if path.endswith(skip) or not os.path.exists(os.path.join(REPO, path)):
+			continue
+		py = path.endswith(".py")
+		lines = open(os.path.join(REPO, path), errors = "replace").read().split("\n")
+		checks = sorted(by_file[path], key = lambda c: cost[c])
+		in_main = False
+		for ln, line in enumerate(lines, 1):
+			if py and line.startswith("if __name__"):
+				break
+			if (path, ln) in done:
+				continue
+			for name, mut in mutants_of_line(line, py):
+				mid = hashlib.sha1(("F|%s|%d|%s" % (path, ln, mut)).encode()).hexdigest()[:10]
+				print(json.dumps({"id": mid, "property": checks[0], "checks": checks, "file": path, "line": ln, "op": name,
+					"old": line, "new": mut, "mechanism": "(outside the listed mechanism ranges)"}))
+
+
+if __name__ == "__main__" and sys.argv[1] == "genfiles":
+	gen_files()
